@@ -1,6 +1,7 @@
 import Req.Driver.Proto
 import Req.Client.Decode
 import Req.Client.DecodeSettings
+import Req.Client.RespHeader
 /-!
 Driver lanes of C15.
 
@@ -23,6 +24,12 @@ the `<tbl>` argument: `in=out;in=out…`, hex, sent by the harness from x/text).
   `,`-joined `<content-type hex>/<ae hex>/<mp>/<lk>` entries; in `prog` a custom function may also be named
   (`G<i>:<k>`, the harness' three fixed functions: suffix `+verif`, even length, contains `charset`).
   Answer: `,`-joined `raw|hdr|auto` (what `autoDecodeResponseBody` installs), one per grid entry.
+* `c15hdrs <mech> <fields> <disable> <filter> <cts> <tbl> <body> <full|wire>` — a response from its header FIELDS in
+  wire order: `mech` = `add` (HTTP/3: `Header.Add`) or `slots:<n>` (HTTP/1.1, HTTP/2: `n` pre-allocated
+  value slots), `fields` = `;`-joined `<name hex>=<value hex>` (`-` = none), `cts` = what the harness says
+  about every Content-Type value in the block (and about `""`): `;`-joined `<ct hex>=<mp>/<lk>`.  The body
+  arrives in one piece and carries no BOM / markup (nothing to sniff).  Answer:
+  `<header map: keys sorted, key=v1,v2;…> <body delivered hex>` and, with `full`, ` <eof|…> <raw|hdr|auto:…>`.
 * `c15legacy …same… <dirty>` — the pinned tree's `peekRead`; buffers are pre-filled with the
   `dirty` pattern repeated.
 * `c15drain <peek|nil> <decid> <tbl> <segs> <term> <lwt> <bufs> <tail>` — `Read` from a state
@@ -205,6 +212,67 @@ def laneReadP : List String → String
     | _, _, _ => "bad-op"
   | _ => "bad-op"
 
+/-- byte-lexicographic `<` on keys (Go's `sort.Strings`). -/
+def bytesLt : Bytes → Bytes → Bool
+  | [], [] => false
+  | [], _ :: _ => true
+  | _ :: _, [] => false
+  | a :: as, b :: bs => a < b || (a == b && bytesLt as bs)
+
+def insertKey (e : Bytes × List Bytes) : List (Bytes × List Bytes) → List (Bytes × List Bytes)
+  | [] => [e]
+  | x :: xs => if bytesLt e.1 x.1 then e :: x :: xs else x :: insertKey e xs
+
+def showHdr (h : Req.RespHeader.Hdr) : String :=
+  let sorted := h.foldl (fun acc e => insertKey e acc) []
+  if sorted.isEmpty then "-" else
+  ";".intercalate (sorted.map fun e => encodeHex e.1 ++ "=" ++ ",".intercalate (e.2.map encodeHex))
+
+def parseFields (s : String) : Option (List Req.RespHeader.Field) :=
+  if s == "-" then some [] else
+  (s.splitOn ";").mapM fun e =>
+    match e.splitOn "=" with
+    | [a, b] => do
+      let x ← decodeHex a
+      let y ← decodeHex b
+      pure (x, y)
+    | _ => none
+
+def laneHdrs : List String → String
+  | [mech, fields, dis, flt, cts, tbl, body, view] =>
+    let r : Option String := do
+      let fields ← parseFields fields
+      let hdr ←
+        if mech == "add" then some (Req.RespHeader.assemble fields)
+        else if mech.startsWith "slots:" then
+          (mech.drop 6).toString.toNat?.map fun n => Req.RespHeader.Slots.readOut (Req.RespHeader.Slots.run true n fields)
+        else none
+      let dis ← parseBool dis
+      let flt ← parseFilter flt
+      let tbl ← parsePairs tbl
+      let body ← decodeHex body
+      let ct := Req.RespHeader.get hdr Req.RespHeader.contentTypeKey
+      let ae := Req.RespHeader.get hdr Req.RespHeader.acceptEncodingKey
+      let cts ← (cts.splitOn ";").mapM fun e =>
+        match e.splitOn "=" with
+        | [c, v] =>
+          match v.splitOn "/" with
+          | [mp, lk] => do
+            let c ← decodeHex c
+            let mp ← parseMp mp
+            let lk ← decOf tbl lk
+            pure (c, (mp, lk))
+          | _ => none
+        | _ => none
+      let (mp, lk) ← cts.lookup ct
+      let src : Src := ⟨if body.isEmpty then [] else [body], .eof, false⟩
+      let rr := respReads ⟨dis, flt⟩ ae ct mp (fun _ => lk) (fun _ => none) src (List.replicate (fuelFor [body] tbl) 4096)
+      if view == "full" then pure (showHdr hdr ++ " " ++ showRR rr)
+      else if view == "wire" ∧ rr.term = some .eof then pure (showHdr hdr ++ " " ++ encodeHex rr.out)
+      else none
+    r.getD "bad-op"
+  | _ => "bad-op"
+
 def showSel : Sel Bytes → String
   | .untouched => "raw"
   | .header _ => "hdr"
@@ -296,6 +364,7 @@ def lanes : List (String × (List String → String)) := [
   ("c15read", laneRead),
   ("c15readp", laneReadP),
   ("c15cfg", laneCfg),
+  ("c15hdrs", laneHdrs),
   ("c15legacy", laneLegacy),
   ("c15drain", laneDrain),
   ("c15dec", laneDec),
